@@ -342,8 +342,11 @@ void dispatchProgram(GenState &gs, Node *c) {
   gs.emitBackpatched(Instruction::Jmp(after_label));
 
   // generate program code
-  Node *name_node = c->left->left, *args_node = c->left->right->left,
-       *out_node = c->left->right->right, *body_node = c->right;
+  // a header without ports ("PROGRAM f DO ... END") has no ports node
+  Node *ports_node = c->left->right;
+  Node *name_node = c->left->left,
+       *args_node = ports_node ? ports_node->left : NULL,
+       *out_node = ports_node ? ports_node->right : NULL, *body_node = c->right;
 
   std::string name = std::string(name_node->tok);
   gs.pushSymbols(name);
